@@ -8,8 +8,7 @@
 //!   dropped; after every operation the result and everything that arrived on every channel is
 //!   printed. A probe with a *full* protocol channel observes whether the manager is told before the
 //!   protocols have been served.
-//!   case  = 0 n nops (op a b)*        op: 1 kill protocol a | 2 report_connection_established
-//!           (b = oracle: set of protocols that were told, filled in by the harness) | 3
+//!   case  = 0 n nops (op a b)*        op: 1 kill protocol a | 2 report_connection_established | 3
 //!           report_connection_closed | 4 report_substream_open_failure for protocol a | 5 kill the
 //!           manager receiver | 6 report_connection_closed while the channel of protocol a is full
 //!   trace = 1 (rc cnt (proto kind)* mgr_cnt mgr_early)*
@@ -20,12 +19,14 @@
 //!   events of every observer are printed: application of A, user protocols of A, application of
 //!   B, user protocols of B. At the end both applications call `dial(peer)`.
 //!   case  = 1 n cfg nsteps (op a b c)*      cfg: bit 0 = keep-alive 1 s (idle-expiry scenarios),
-//!           bits 1-2 = transport (0 TCP, 1 WebSocket, 2 QUIC — only with the `quic` feature)
-//!           op: 14 A dials B while protocol b of node a exits (c = oracle: 0 the connection was
-//!           accepted first, else 1 + 2*maskA + 256*maskB; the racing observer is not printed) |
+//!           bits 1-2 = transport (0 TCP, 1 WebSocket, 2 QUIC — only with the `quic` feature), bit 3 =
+//!           TCP_NODELAY, bit 4 = two worker threads per node
+//!           op: 20 idle expiry while the protocol only B has keeps opening substreams A refuses (their
+//!           failures at B are not printed) |
+//!           op: 14 A dials B while protocol b of node a exits (either order; the racing protocol's
+//!           own observer is not printed) |
 //!           10 protocol b of node a exits (b = n+1: the notification handle is dropped, n+2:
-//!           the request-response handle) | 11 A dials B (b, c = oracle: protocols of A / B that
-//!           logged Established, filled in when the node has a dead protocol) | 12 protocol b of node
+//!           the request-response handle) | 11 A dials B | 12 protocol b of node
 //!           a opens a substream | 13 the same and exits immediately | 15 protocol b of node a
 //!           force-closes | 16 the proxy cuts the link | 17 wait for idle expiry | 18 node B is shut
 //!           down (its runtime is killed)
@@ -187,12 +188,8 @@ fn run_unit(case: &mut [u64]) -> Vec<u64> {
                 let peer = u.peer;
                 let rc = rt.block_on(async { set.verif_report_connection_established(peer, endpoint).await });
                 tr.push(rc.is_err() as u64);
-                let mask = u.drain(&mut tr);
+                u.drain(&mut tr);
                 tr.push(0);
-                // oracle: with a dead receiver the set of protocols served before the failure depends
-                // on the HashMap order; it is handed to the model, which validates it
-                let any_dead = u.rxs.iter().any(|r| r.is_none());
-                case[5 + 3 * k] = if any_dead { mask } else { 0 };
             }
             3 => {
                 let (mut set, id) = u.protocol_set();
@@ -311,16 +308,221 @@ fn gen_unit(rng: &mut Rng) -> Vec<u64> {
 }
 
 // ------------------------------------------------------------------------------------------
+// kind 2: back-pressure (format and meaning: coq/C07/Glue.v "kind 2", model coq/C07/Block.v)
+// ------------------------------------------------------------------------------------------
+
+struct BConn {
+    set: Option<ProtocolSet>,
+    /// report in flight: 0 established, 2 substream failure, 3 closed
+    pending: Option<(u64, tokio::task::JoinHandle<(ProtocolSet, bool)>)>,
+    phase: u64,
+}
+
+async fn idle() {
+    for _ in 0..24 {
+        tokio::task::yield_now().await;
+    }
+}
+
+fn run_block(case: &[u64]) -> Vec<u64> {
+    let (n, cap, nops) = (case[1] as usize, case[2] as usize, case[3] as usize);
+    if !(1..=6).contains(&n) || !(1..=8).contains(&cap) || case.len() != 4 + 3 * nops {
+        return vec![0];
+    }
+    for k in 0..nops {
+        let (op, a, b) = (case[4 + 3 * k], case[5 + 3 * k], case[6 + 3 * k]);
+        let ok = match op {
+            1 => a < 1000,
+            2 => a < 1000 && b <= n as u64,
+            4 => a < n as u64 && b < 1000,
+            5 => a < n as u64,
+            _ => false,
+        };
+        if !ok {
+            return vec![0];
+        }
+    }
+    let rt = tokio::runtime::Builder::new_current_thread().enable_all().build().unwrap();
+    let mut protocols = HashMap::new();
+    let mut names = Vec::new();
+    let mut rxs: Vec<Option<mpsc::Receiver<InnerTransportEvent>>> = Vec::new();
+    let mut txs = Vec::new();
+    for i in 0..n {
+        let (tx, rx) = mpsc::channel(cap);
+        let name = ProtocolName::from(format!("/c07/block/{i}"));
+        protocols.insert(
+            name.clone(),
+            ProtocolContext { codec: ProtocolCodec::Identity(32), tx: tx.clone(), fallback_names: Vec::new(), keep_alive: SubstreamKeepAlive::Yes },
+        );
+        names.push(name);
+        txs.push(tx);
+        rxs.push(Some(rx));
+    }
+    let (mgr_tx, mut mgr_rx) = mpsc::channel::<TransportManagerEvent>(4096);
+    let peer = PeerId::random();
+    let mut conns: std::collections::BTreeMap<u64, BConn> = Default::default();
+    let mut tr = vec![1u64];
+    for k in 0..nops {
+        let (op, a, b) = (case[4 + 3 * k], case[5 + 3 * k], case[6 + 3 * k]);
+        let mut rc = 0u64;
+        let mut got: Vec<u64> = Vec::new();
+        let mut ngot = 0u64;
+        match op {
+            1 => {
+                if conns.contains_key(&a) {
+                    rc = 2;
+                } else {
+                    let id = ConnectionId::from(a as usize);
+                    let mut set = ProtocolSet::new(id, mgr_tx.clone(), Arc::new(AtomicUsize::new(0)), protocols.clone());
+                    let endpoint = Endpoint::Dialer { address: "/ip4/127.0.0.1/tcp/1".parse().unwrap(), connection_id: id };
+                    let h = rt.spawn(async move {
+                        let r = set.verif_report_connection_established(peer, endpoint).await;
+                        (set, r.is_ok())
+                    });
+                    conns.insert(a, BConn { set: None, pending: Some((0, h)), phase: 0 });
+                }
+            }
+            2 => match conns.get_mut(&a) {
+                Some(c) if c.phase == 1 && c.set.is_some() => {
+                    let mut set = c.set.take().unwrap();
+                    let id = ConnectionId::from(a as usize);
+                    if b == 0 {
+                        let h = rt.spawn(async move {
+                            let r = set.verif_report_connection_closed(peer, id).await;
+                            (set, r.is_ok())
+                        });
+                        c.pending = Some((3, h));
+                        c.phase = 3;
+                    } else {
+                        let name = names[(b - 1) as usize].clone();
+                        let h = rt.spawn(async move {
+                            let r = set
+                                .report_substream_open_failure(name, SubstreamId::from(a as usize), litep2p::error::SubstreamError::ConnectionClosed)
+                                .await;
+                            (set, r.is_ok())
+                        });
+                        c.pending = Some((2, h));
+                        c.phase = 2;
+                    }
+                }
+                _ => rc = 2,
+            },
+            4 => {
+                for _ in 0..b {
+                    rt.block_on(idle());
+                    let Some(rx) = rxs[a as usize].as_mut() else { break };
+                    match rx.try_recv() {
+                        Ok(ev) => {
+                            let (kind, c) = match &ev {
+                                InnerTransportEvent::ConnectionEstablished { connection, .. } => (1, connection.verif_as_usize() as u64),
+                                InnerTransportEvent::ConnectionClosed { connection, .. } => (2, connection.verif_as_usize() as u64),
+                                InnerTransportEvent::SubstreamOpenFailure { substream, .. } => (5, substream.verif_as_usize() as u64),
+                                _ => (9, 0),
+                            };
+                            got.extend([kind, c]);
+                            ngot += 1;
+                        }
+                        Err(_) => break,
+                    }
+                }
+            }
+            5 => {
+                rxs[a as usize] = None;
+            }
+            _ => unreachable!(),
+        }
+        rt.block_on(idle());
+        // reports that have completed
+        let mut outs: Vec<(u64, u64)> = Vec::new();
+        for (id, c) in conns.iter_mut() {
+            if c.pending.as_ref().map(|(_, h)| h.is_finished()).unwrap_or(false) {
+                let (kind, h) = c.pending.take().unwrap();
+                let (set, _ok) = rt.block_on(h).expect("report task");
+                c.set = Some(set);
+                match kind {
+                    0 => {
+                        c.phase = 1;
+                        outs.push((2 * id, 1));
+                    }
+                    2 => c.phase = 1,
+                    _ => c.phase = 4,
+                }
+            }
+        }
+        while let Ok(TransportManagerEvent::ConnectionClosed { connection, .. }) = mgr_rx.try_recv() {
+            outs.push((2 * connection.verif_as_usize() as u64 + 1, 2));
+        }
+        outs.sort();
+        tr.push(rc);
+        tr.push(outs.len() as u64);
+        for (key, kind) in outs {
+            tr.extend([kind, key / 2]);
+        }
+        tr.push(ngot);
+        tr.extend(got);
+        for tx in txs.iter() {
+            tr.push((tx.max_capacity() - tx.capacity()) as u64);
+        }
+        tr.push(conns.len() as u64);
+        for (id, c) in conns.iter() {
+            tr.extend([*id, c.phase]);
+        }
+    }
+    tr
+}
+
+fn gen_block(rng: &mut Rng) -> Vec<u64> {
+    let n = rng.range(1, 4);
+    let cap = rng.pick(&[1u64, 1, 1, 2, 3]);
+    let nops = rng.range(4, 24);
+    let mut ops: Vec<[u64; 3]> = Vec::new();
+    let mut next = 0u64;
+    ops.push([1, 0, 0]);
+    next += 1;
+    for _ in 0..nops {
+        let r = rng.below(100);
+        let c = rng.below(next);
+        if r < 25 && next < 6 {
+            ops.push([1, next, 0]);
+            next += 1;
+        } else if r < 40 {
+            ops.push([2, c, 0]);
+        } else if r < 55 {
+            ops.push([2, c, rng.range(1, n)]);
+        } else if r < 96 {
+            ops.push([4, rng.below(n), rng.range(1, 3)]);
+        } else {
+            ops.push([5, rng.below(n), 0]);
+        }
+    }
+    // at the end every protocol receives everything: all reports complete
+    for _ in 0..2 {
+        for p in 0..n {
+            ops.push([4, p, 60]);
+        }
+    }
+    let mut c = vec![2, n, cap, ops.len() as u64];
+    for o in ops {
+        c.extend(o);
+    }
+    c
+}
+
+// ------------------------------------------------------------------------------------------
 // kind 1: end to end
 // ------------------------------------------------------------------------------------------
 
 type Log = Arc<Mutex<Vec<u64>>>;
 
 #[derive(Clone)]
-struct Tick(Arc<AtomicU64>);
+struct Tick(Arc<AtomicU64>, Arc<Mutex<Option<Instant>>>);
 impl Tick {
     fn push(&self, log: &Log, ev: u64) {
         log.lock().unwrap().push(ev);
+        if ev == 1 {
+            // when the connection was last announced to somebody (the keep-alive timers start here)
+            *self.1.lock().unwrap() = Some(Instant::now());
+        }
         self.0.fetch_add(1, Ordering::SeqCst);
     }
     fn get(&self) -> u64 {
@@ -330,11 +532,14 @@ impl Tick {
 
 enum PCmd {
     Exit,
+    /// open a substream and, whenever the open fails, at once the next one (at most n times)
+    Chain(PeerId, u64),
     Open(PeerId, bool, oneshot::Sender<u64>),
     ForceClose(PeerId, oneshot::Sender<u64>),
 }
 
 struct Proto {
+    chain: (Option<PeerId>, u64),
     name: ProtocolName,
     log: Log,
     tick: Tick,
@@ -360,11 +565,21 @@ impl UserProtocol for Proto {
                         self.tick.push(&self.log, match direction { Direction::Inbound => 3, Direction::Outbound(_) => 4 });
                         drop(substream);
                     }
-                    Some(TransportEvent::SubstreamOpenFailure { .. }) => self.tick.push(&self.log, 5),
+                    Some(TransportEvent::SubstreamOpenFailure { .. }) => {
+                        if let (Some(peer), true) = (self.chain.0, self.chain.1 > 0) {
+                            self.chain.1 -= 1;
+                            let _ = service.open_substream(peer);
+                        }
+                        self.tick.push(&self.log, 5)
+                    }
                     Some(TransportEvent::DialFailure { .. }) => self.tick.push(&self.log, 6),
                 },
                 c = self.cmd.recv() => match c {
                     None | Some(PCmd::Exit) => return Ok(()),
+                    Some(PCmd::Chain(peer, count)) => {
+                        self.chain = (Some(peer), count);
+                        let _ = service.open_substream(peer);
+                    }
                     Some(PCmd::Open(peer, die, tx)) => {
                         let rc = service.open_substream(peer).is_err() as u64;
                         let _ = tx.send(rc);
@@ -411,8 +626,8 @@ struct Node {
 impl Node {
     /// n common user protocols + one only this node has + notification + request-response
     /// transport: 0 TCP, 1 WebSocket, 2 QUIC (only with the `quic` feature of the harness)
-    fn start(n: usize, solo: &str, ka: Duration, transport: u64, tick: Tick) -> Node {
-        let rt = tokio::runtime::Builder::new_multi_thread().worker_threads(1).enable_all().build().unwrap();
+    fn start(n: usize, solo: &str, ka: Duration, transport: u64, nodelay: bool, workers: usize, tick: Tick) -> Node {
+        let rt = tokio::runtime::Builder::new_multi_thread().worker_threads(workers).enable_all().build().unwrap();
         let (tx, rx) = std::sync::mpsc::channel();
         let tick2 = tick.clone();
         let solo = solo.to_string();
@@ -433,12 +648,14 @@ impl Node {
                 builder.with_websocket(WsConfig {
                     listen_addresses: vec!["/ip4/127.0.0.1/tcp/0/ws".parse().unwrap()],
                     reuse_port: false,
+                    nodelay,
                     ..Default::default()
                 })
             } else {
                 builder.with_tcp(TcpConfig {
                     listen_addresses: vec!["/ip4/127.0.0.1/tcp/0".parse().unwrap()],
                     reuse_port: false,
+                    nodelay,
                     ..Default::default()
                 })
             };
@@ -449,6 +666,7 @@ impl Node {
                 let log: Log = Default::default();
                 let (ctx, crx) = mpsc::unbounded_channel();
                 builder = builder.with_user_protocol(Box::new(Proto {
+                    chain: (None, 0),
                     name: ProtocolName::from(name),
                     log: log.clone(),
                     tick: tick.clone(),
@@ -491,11 +709,10 @@ impl Node {
         Node { rt: Some(rt), peer, addr, app, plogs, pcmd, notif: Some(notif), rr: Some(rr), ctl: ctl_tx, seen: vec![0; nobs] }
     }
 
-    /// new events of every observer since the last call: (cnt ev*) per observer; returns the set of
-    /// user protocols that logged Established
-    fn dump(&mut self, out: &mut Vec<u64>, blank: Option<usize>) -> (u64, bool) {
-        let mut mask = 0;
-        let mut app_est = false;
+    /// new events of every observer since the last call: (cnt ev*) per observer
+    /// `blank`: an observer whose events are not printed; `strip`: an observer whose substream-open
+    /// failures (their number is a matter of timing) are not printed
+    fn dump(&mut self, out: &mut Vec<u64>, blank: Option<usize>, strip: Option<usize>) {
         let logs: Vec<Log> = std::iter::once(self.app.clone()).chain(self.plogs.iter().cloned()).collect();
         for (k, log) in logs.iter().enumerate() {
             let l = log.lock().unwrap();
@@ -504,19 +721,16 @@ impl Node {
                 // the observer races with the step (a protocol exiting while the connection is
                 // announced may or may not read its last events): not printed
                 out.push(0);
+            } else if strip == Some(k) {
+                let kept: Vec<u64> = new.iter().copied().filter(|&e| e != 5).collect();
+                out.push(kept.len() as u64);
+                out.extend_from_slice(&kept);
             } else {
                 out.push(new.len() as u64);
                 out.extend_from_slice(new);
-                if k > 0 && new.contains(&1) {
-                    mask |= 1 << (k - 1);
-                }
-                if k == 0 && new.contains(&1) {
-                    app_est = true;
-                }
             }
             self.seen[k] = l.len();
         }
-        (mask, app_est)
     }
 
     fn alive(&self) -> bool {
@@ -622,6 +836,9 @@ async fn run_e2e(mut case: Vec<u64>) -> (Vec<u64>, Vec<u64>) {
     // case[2]: bit 0 = short keep-alive (idle-expiry scenarios), bit 1 = WebSocket instead of TCP
     let ka = if case[2] & 1 == 1 { Duration::from_millis(KA_SHORT_MS) } else { Duration::from_secs(60) };
     let transport = (case[2] >> 1) & 3;
+    // bit 3 = TCP_NODELAY, bit 4 = the nodes run on two worker threads instead of one
+    let nodelay = case[2] & 8 == 8;
+    let workers = if case[2] & 16 == 16 { 2 } else { 1 };
     if transport == 3 || (transport == 2 && !cfg!(feature = "quic")) {
         return (case, vec![0]);
     }
@@ -629,11 +846,11 @@ async fn run_e2e(mut case: Vec<u64>) -> (Vec<u64>, Vec<u64>) {
     if n == 0 || n > 4 || case.len() != 4 + 4 * nsteps {
         return (case, vec![0]);
     }
-    let tick = Tick(Default::default());
+    let tick = Tick(Default::default(), Default::default());
     let (t1, t2) = (tick.clone(), tick.clone());
-    let mut b = tokio::task::spawn_blocking(move || Node::start(n, "/c07/solo/b", ka, transport, t1)).await.unwrap();
+    let mut b = tokio::task::spawn_blocking(move || Node::start(n, "/c07/solo/b", ka, transport, nodelay, workers, t1)).await.unwrap();
     let proxy = Proxy::start(socket_addr(&b.addr)).await;
-    let mut a = tokio::task::spawn_blocking(move || Node::start(n, "/c07/solo/a", ka, transport, t2)).await.unwrap();
+    let mut a = tokio::task::spawn_blocking(move || Node::start(n, "/c07/solo/a", ka, transport, nodelay, workers, t2)).await.unwrap();
     // A reaches B through the proxy (QUIC: directly, there is no UDP proxy; scripts do not cut the link then)
     let addr_of = |port: u16, peer: PeerId| -> Multiaddr {
         match transport {
@@ -735,6 +952,24 @@ async fn run_e2e(mut case: Vec<u64>) -> (Vec<u64>, Vec<u64>) {
                 first = Duration::from_millis(1500);
             }
             17 => first = Duration::from_millis(4 * KA_SHORT_MS + 3000),
+            20 => {
+                // idle expiry under fire: from 100 ms before the keep-alive runs out, the protocol only B
+                // has opens a substream towards A (which refuses it) and, as soon as that fails, the next
+                // one. An inbound substream that reaches A just after its protocols have released the
+                // connection finds no permit (try_get_permit fails): the exit that used to be silent.
+                let est = tick.1.lock().unwrap().unwrap_or_else(Instant::now);
+                let target = est + Duration::from_millis(KA_SHORT_MS - 100);
+                let now = Instant::now();
+                if target > now {
+                    tokio::time::sleep(target - now).await;
+                }
+                if b.alive() {
+                    if let Some(txc) = b.pcmd[n].as_ref() {
+                        let _ = txc.send(PCmd::Chain(a.peer, 4000));
+                    }
+                }
+                first = Duration::from_millis(4 * KA_SHORT_MS + 3000);
+            }
             18 => {
                 if b.alive() {
                     b.shutdown();
@@ -749,17 +984,8 @@ async fn run_e2e(mut case: Vec<u64>) -> (Vec<u64>, Vec<u64>) {
         settle(&tick, before, first).await;
         tr.push(rc);
         let blank = |node: u64| if op == 14 && x == node && y <= n { Some(y + 1) } else { None };
-        let (ma, ea) = a.dump(&mut tr, blank(0));
-        let (mb, eb) = b.dump(&mut tr, blank(1));
-        if op == 11 {
-            case[6 + 4 * k] = if a.any_dead() { ma } else { 0 };
-            case[7 + 4 * k] = if b.any_dead() { mb } else { 0 };
-        }
-        if op == 14 {
-            // oracle: did the accept of the node whose protocol exits come first (0) or the exit (1)?
-            let accepted = if x == 0 { ea } else { eb };
-            case[7 + 4 * k] = if accepted { 0 } else { 1 | (ma << 1) | (mb << 8) };
-        }
+        a.dump(&mut tr, blank(0), None);
+        b.dump(&mut tr, blank(1), if op == 20 { Some(n + 1) } else { None });
     }
     // afterwards: can the peer be dialed again?
     for (node, peer) in [(&a, b.peer), (&b, a.peer)] {
@@ -789,7 +1015,8 @@ fn gen_e2e(rng: &mut Rng, thorough: bool, transports: &[u64]) -> Vec<u64> {
     let short = rng.chance(25);
     let mut st = GenSt { alive: [vec![true; n + 3], vec![true; n + 3]], connected: false, b_up: true };
     let mut steps: Vec<[u64; 4]> = Vec::new();
-    let dead = |st: &GenSt, x: usize| st.alive[x].iter().any(|a| !a);
+    let mut under_fire = false;
+    let all_dead = |st: &GenSt| st.alive[0].iter().all(|a| !a) || st.alive[1].iter().all(|a| !a);
     if short {
         // idle expiry: connect, at most one action, wait
         if rng.chance(20) {
@@ -799,26 +1026,23 @@ fn gen_e2e(rng: &mut Rng, thorough: bool, transports: &[u64]) -> Vec<u64> {
             steps.push([10, x as u64, y as u64, 0]);
         }
         steps.push([11, 0, 0, 0]);
-        if !dead(&st, 0) && !dead(&st, 1) {
-            match rng.below(4) {
-                0 => {
-                    let x = rng.below(2);
-                    steps.push([12, x, rng.below(n as u64 + 1), 0]);
-                }
-                1 => {
-                    let x = rng.below(2) as usize;
-                    let y = rng.below(n as u64 + 3) as usize;
-                    st.alive[x][y] = false;
-                    steps.push([10, x as u64, y as u64, 0]);
-                }
-                _ => {}
+        match rng.below(4) {
+            0 => {
+                let x = rng.below(2);
+                steps.push([12, x, rng.below(n as u64 + 1), 0]);
             }
-            steps.push([17, 0, 0, 0]);
-            if !dead(&st, 0) && !dead(&st, 1) && rng.chance(40) {
-                steps.push([11, 0, 0, 0]);
-            } else if rng.chance(50) {
-                steps.push([11, 0, 0, 0]);
+            1 => {
+                let x = rng.below(2) as usize;
+                let y = rng.below(n as u64 + 3) as usize;
+                st.alive[x][y] = false;
+                steps.push([10, x as u64, y as u64, 0]);
             }
+            _ => {}
+        }
+        under_fire = rng.chance(40);
+        steps.push([if under_fire { 20 } else { 17 }, 0, 0, 0]);
+        if rng.chance(50) {
+            steps.push([11, 0, 0, 0]);
         }
     } else {
         let max = if thorough { rng.range(3, 9) } else { rng.range(2, 7) };
@@ -837,33 +1061,16 @@ fn gen_e2e(rng: &mut Rng, thorough: bool, transports: &[u64]) -> Vec<u64> {
                     // an action without a connection: refused
                     let x = rng.below(2);
                     steps.push([if rng.chance(50) { 12 } else { 15 }, x, rng.below(n as u64 + 1), 0]);
-                } else if r < 32 && st.b_up && !dead(&st, 0) && !dead(&st, 1) {
-                    // a protocol exits during the handshake; whichever comes first, only actions
-                    // that make sense in both outcomes follow
+                } else if r < 32 && st.b_up {
+                    // a protocol exits during the handshake (either order)
                     let x = rng.below(2) as usize;
                     let y = rng.below(n as u64 + 3) as usize;
                     st.alive[x][y] = false;
                     steps.push([14, x as u64, y as u64, 0]);
-                    for _ in 0..rng.below(3) {
-                        let x = rng.below(2) as usize;
-                        let live: Vec<usize> = (0..=n).filter(|&i| st.alive[x][i]).collect();
-                        if live.is_empty() {
-                            break;
-                        }
-                        match rng.below(3) {
-                            0 => steps.push([12, x as u64, rng.pick(&live) as u64, 0]),
-                            1 => steps.push([15, x as u64, rng.pick(&live) as u64, 0]),
-                            _ => steps.push([16, 0, 0, 0]),
-                        }
-                    }
-                    stop = true;
+                    st.connected = !all_dead(&st);
                 } else if st.b_up {
                     steps.push([11, 0, 0, 0]);
-                    if dead(&st, 0) || dead(&st, 1) {
-                        stop = true; // the accept fails on that node (F-C07b); nothing follows
-                    } else {
-                        st.connected = true;
-                    }
+                    st.connected = !all_dead(&st);
                 } else {
                     // B is gone: the dial fails
                     if rng.chance(60) {
@@ -909,7 +1116,12 @@ fn gen_e2e(rng: &mut Rng, thorough: bool, transports: &[u64]) -> Vec<u64> {
         }
     }
     let transport = rng.pick(transports);
-    let mut c = vec![1, n as u64, short as u64 + 2 * transport, steps.len() as u64];
+    // schedules: TCP_NODELAY and a second worker thread per node, each in about half of the scenarios
+    // (always when the idle expiry is under fire: the no-permit path needs both to be reachable)
+    let nodelay = rng.chance(50) || under_fire;
+    let two_workers = rng.chance(40) || under_fire;
+    let cfg = short as u64 + 2 * transport + 8 * nodelay as u64 + 16 * two_workers as u64;
+    let mut c = vec![1, n as u64, cfg, steps.len() as u64];
     for mut s in steps {
         if transport == 2 && s[0] == 16 {
             s = [15, 0, 0, 0]; // no proxy in front of a QUIC node: close from A instead of cutting
@@ -934,6 +1146,10 @@ fn run_many(rt: &tokio::runtime::Runtime, cases: Vec<Vec<u64>>, par: usize, out:
                 let mut c2 = c.clone();
                 let t = std::panic::catch_unwind(std::panic::AssertUnwindSafe(|| run_unit(&mut c2))).unwrap_or(vec![PANIC_MARK]);
                 results[i] = Some((c2, t));
+            }
+            Some(2) if c.len() >= 4 => {
+                let t = std::panic::catch_unwind(std::panic::AssertUnwindSafe(|| run_block(c))).unwrap_or(vec![PANIC_MARK]);
+                results[i] = Some((c.clone(), t));
             }
             Some(1) if c.len() >= 4 => e2e.push(i),
             _ => results[i] = Some((c.clone(), vec![0])),
@@ -990,6 +1206,10 @@ pub fn main(args: &Args) {
     for i in 0..ncases {
         let mut r = rng.fork();
         cases.push(gen_unit(&mut r));
+        if i % 3 == 0 {
+            let mut r = rng.fork();
+            cases.push(gen_block(&mut r));
+        }
         if i % every == 0 {
             let mut r = rng.fork();
             cases.push(gen_e2e(&mut r, thorough, &transports));
